@@ -827,3 +827,12 @@ add("C19", "engine tokenizers handed out by a memoised factory", "sqlglot/dialec
 add("C19", "parser raises and restores the interpreter recursion limit around a parse", P,
     "        return self._parse_batch_statements(parse_method=parse_method, sep_first_statement=False)\n",
     "        import sys\n\n        limit = sys.getrecursionlimit()\n        sys.setrecursionlimit(max(limit, 10000))\n        try:\n            return self._parse_batch_statements(parse_method=parse_method, sep_first_statement=False)\n        finally:\n            sys.setrecursionlimit(limit)\n", "C19.g")
+
+add("C04", "revert: interval text placed raw between quotes", G,
+    "            this = self.escape_str(expression.this.name) if expression.this else \"\"\n            if this:\n                interval_keyword",
+    "            this = expression.this.name if expression.this else \"\"\n            if this:\n                interval_keyword", "C04.R9")
+add("C04", "revert: sp_rename target name placed raw between quotes", "sqlglot/generators/tsql.py",
+    "'{self.escape_str(action.this.name)}'\"", "'{action.this.name}'\"", "C04.R9")
+add("C04", "benign: escaped text bound to a local before it is quoted", "sqlglot/generators/tsql.py",
+    "            return f\"EXEC sp_rename '{old_name}', '{self.escape_str(action.this.name)}'\"",
+    "            new_name = self.escape_str(action.this.name)\n            return f\"EXEC sp_rename '{old_name}', '{new_name}'\"", "silent", 0)
